@@ -2865,7 +2865,8 @@ def lib_dict_get(ev, a, k, n, mod):
 
 
 def lib_abs(ev, a, k, n, mod):
-    return sp.Abs(as_sym(a[0]))
+    r = _cellwise(sp.Abs, ev, a, n, mod)
+    return sp.Abs(as_sym(a[0])) if r is None else r
 
 
 LIB = {
@@ -4757,6 +4758,8 @@ def lib_const_method(ev, a, k, n, mod):
 
 lib_const_method.kw = {"axis"}
 LIB["const_method"] = lib_const_method
+LIB.setdefault("numpy.absolute", lib_abs)
+LIB.setdefault("numpy.fabs", lib_abs)
 LIB.setdefault("numpy.diag", lib_diag)
 LIB.setdefault("numpy.einsum", lib_einsum)
 LIB.setdefault("numpy.real", _elementwise(sp.re))
